@@ -120,7 +120,8 @@ func checkC15(c *Ctx) {
 	c15WarnLoop(c)
 	c15NoDrop(c)
 	c08ClientAuth(c) // an omitted or empty client Certificate message under a requiring policy aborts
-	c06Suite(c)      // "unsupported versions, suites": a suite or version the endpoint did not offer is refused
+	c15Compression(c)
+	c06Suite(c) // "unsupported versions, suites": a suite or version the endpoint did not offer is refused
 	c15MsgType(c, scope)
 	before := len(c.Obls)
 	c15Complete(c, scope)
